@@ -29,9 +29,17 @@ class HarnessError(Exception):
         self.inv = inv
 
 
+class HarnessBaseError(BaseException):
+    """A failure of the wrapped function that is not an Exception subclass."""
+
+    def __init__(self, inv):
+        super().__init__(inv)
+        self.inv = inv
+
+
 class Inv:
     __slots__ = ('i', 'key', 'args', 'loop', 'epoch', 'step', 't', 'task', 'exited', 'how',
-                 'value', 'step_exit', 't_exit', 'ti')
+                 'value', 'step_exit', 't_exit', 'ti', 'self_cancel')
 
     def __init__(self, i, key, loop, task):
         self.i = i
@@ -44,6 +52,7 @@ class Inv:
         self.value = None
         self.step_exit = None
         self.t_exit = None
+        self.self_cancel = False
 
 
 class Caller:
@@ -158,7 +167,7 @@ def gen_program(rng, profile):
     for _ in range(8):
         out = _w(rng, [('value', 8), ('none', 2)]) if base != 'c14' else 'value'
         if base not in ('c01', 'c14') or (faulty and base == 'c01'):
-            out = _w(rng, [('value', 6), ('none', 1), ('raise', 2), ('raise_sync', 1)])
+            out = _w(rng, [('value', 6), ('none', 1), ('raise', 2), ('raise_sync', 1), ('raise_cancelled', 0.6), ('raise_base', 0.4)])
         invs.append({'dur': _w(rng, durs), 'out': out})
     faults = []
     if faulty and base == 'c14':
@@ -301,6 +310,14 @@ class CacheWorld:
                 await asyncio.sleep(d)
             if spec['out'] == 'raise':
                 raise HarnessError(i)
+            if spec['out'] == 'raise_base':
+                I.how = 'raise'
+                raise HarnessBaseError(i)
+            if spec['out'] == 'raise_cancelled':
+                # the function awaited something that was cancelled: it fails with CancelledError, nobody cancelled the caller
+                I.how = 'raise'
+                I.self_cancel = True
+                raise asyncio.CancelledError(('inv', i))
             # 'none': a falsy result that cannot carry a tag (None is a perfectly good value to cache)
             I.value = None if spec['out'] == 'none' else ('v', key, i)
             I.how = 'return'
@@ -311,7 +328,8 @@ class CacheWorld:
             I.how = 'raise'
             raise
         except asyncio.CancelledError:
-            I.how = 'cancel'
+            if I.how != 'raise':
+                I.how = 'cancel'
             raise
         finally:
             I.exited = True
@@ -413,7 +431,7 @@ class CacheWorld:
             else:
                 v = await self.cached(*args, **kwargs)
             C.outcome = ('value', v)
-        except HarnessError as e:
+        except (HarnessError, HarnessBaseError) as e:
             C.outcome = ('herr', e.inv)
         except asyncio.TimeoutError:
             C.outcome = ('timeout',)
@@ -680,6 +698,8 @@ class CacheWorld:
             if kind in ('cancelled', 'timeout'):
                 if C.cancel_requested or C.own_shutdown:
                     continue
+                if kind == 'cancelled' and any(J.self_cancel and J.task is C.task for J in self.invs):
+                    continue            # CancelledError raised by an invocation this very call performed
                 if kind == 'timeout' and C.spec.get('timeout') is not None:
                     continue            # the time-out the harness itself put on this very call
                 self.viol('C06', 'cache.foreign_cancel',
